@@ -8,6 +8,8 @@ predicted."""
 
 DT = {"byte": 1, "char": 1, "short": 2, "int": 4, "long": 8, "float": 4, "double": 8, "float2": 8, "int4": 16, "double2": 16}
 DTNAMES = sorted(DT)
+# a dtype object that was never registered: 4 bytes per entry; every request that would give a memory this dtype raises
+DT["unreg"] = 4
 ND, NM, NP, NK, NS, NH, HBYTES = 3, 10, 3, 3, 3, 4, 256
 KINDS = {"D": ND, "M": NM, "P": NP, "K": NK, "S": NS}
 
@@ -253,6 +255,8 @@ def apply(m, op):
                 return Expect("ok")
             if entries < 0:
                 return Expect("exc", "malloc negative")
+            if dt == "unreg":
+                return Expect("exc", "malloc with an unregistered dtype")
             size = entries * DT[dt]
             if h >= 0 and useh:
                 st, known_src = m.H[h], None
@@ -272,6 +276,8 @@ def apply(m, op):
             h, entries, dt = I(3), I(4), op[5]
             if entries < 0:
                 return Expect("exc", "wrap negative")
+            if dt == "unreg":
+                return Expect("exc", "wrap with an unregistered dtype")
             size = entries * DT[dt]
             buf = m.new("buf", dev=dev, size=size, accounted=False, views=[], storage=m.H[h], base=0, hostalias=h)
             v = m.new("view", buf=buf, pool=None, storage=m.H[h], base=0, size=size, dtype=dt, root=None)
@@ -346,6 +352,8 @@ def apply(m, op):
             return Expect("ok")
         if name == "cast":
             off, count, newdt = 0, -1, op[3]
+            if newdt == "unreg":
+                return Expect("exc", "cast to an unregistered dtype")
         elif name == "plus":
             off, count, newdt = I(3), -1, src.dtype
         else:
@@ -454,6 +462,9 @@ def apply(m, op):
             return Expect("ok")
         if entries < 0:
             return Expect("exc", "reserve negative")
+        if dt == "unreg":
+            # (the pool may have grown for the request before the dtype was refused; its size is read, not predicted)
+            return Expect("exc", "reserve with an unregistered dtype")
         size = entries * DT[dt]
         st = Storage(size)
         v = m.new("view", buf=None, pool=pool, storage=st, base=0, size=size, dtype=dt, root=None)
